@@ -178,6 +178,52 @@ example :
     bind ps ([T.makeFloat].map Arg.pos) = .mismatch ∧ bind ps ([T.makeInt].map Arg.pos) = .ok := by decide
 end
 
+section
+open RubyTi.Bind
+
+/-- no declaration accepts ⇒ the class's result is an error -/
+theorem tryOverloads_rejected (args : List Arg) (os : List (List Param)) (last : Res) (hl : last ≠ .ok)
+    (h : ∀ o ∈ os, RubyTi.Bind.bind o args ≠ .ok) : tryOverloads args os last ≠ .ok := by
+  induction os generalizing last with
+  | nil => simpa [tryOverloads] using hl
+  | cons o rest ih =>
+    have ho : RubyTi.Bind.bind o args ≠ .ok := h o (by simp)
+    simp only [tryOverloads]
+    have : (RubyTi.Bind.bind o args == Res.ok) = false := by simpa using ho
+    simp only [this]
+    exact ih (RubyTi.Bind.bind o args) ho (fun x hx => h x (by simp [hx]))
+
+theorem bindClass_rejected (decls : List (List Param)) (args : List Arg) (hne : decls ≠ [])
+    (h : ∀ d ∈ decls, RubyTi.Bind.bind d args ≠ .ok) : bindClass decls args ≠ .ok := by
+  cases decls with
+  | nil => exact absurd rfl hne
+  | cons d os =>
+    have hd : RubyTi.Bind.bind d args ≠ .ok := h d (by simp)
+    have : (RubyTi.Bind.bind d args == Res.ok) = false := by simpa using hd
+    simp only [bindClass, this]
+    exact tryOverloads_rejected args os _ hd (fun x hx => h x (by simp [hx]))
+
+/-- **A call on a union receiver that some possible receiver class certainly rejects is reported**: if for one
+class of the union every declaration of the method (the first one and all overloads) rejects the arguments, the
+call is an error — whatever the other classes declare, for any number of classes and overloads. -/
+theorem union_rejected_reported (classes : List (List (List Param))) (args : List Arg)
+    (c : List (List Param)) (hc : c ∈ classes) (hne : c ≠ []) (h : ∀ d ∈ c, RubyTi.Bind.bind d args ≠ .ok) :
+    bindUnion classes args ≠ .ok := by
+  induction classes with
+  | nil => simp at hc
+  | cons k rest ih =>
+    simp only [bindUnion]
+    by_cases hk : (bindClass k args == Res.ok) = true
+    · simp only [hk]
+      rcases List.mem_cons.mp hc with e | e
+      · subst e
+        exact absurd (by simpa using hk) (bindClass_rejected c args hne h)
+      · exact ih e
+    · simp only [hk]
+      simpa using hk
+
+end
+
 /-- Union receivers: every class of the receiver is checked with the binding loop above, and an argument error that
 none of that class's declarations lifts is returned (regenerated from checkAndPropagateArgsForUnionWithReturnT):
 the theorems about one declaration carry over to a call on a union receiver class by class. -/
